@@ -4,6 +4,7 @@ import html, json, os, random, re, shutil, subprocess, sys, tempfile, multiproce
 HERE = os.path.dirname(os.path.abspath(__file__))
 sys.path.insert(0, HERE)
 import gen
+import engine
 
 PRINTERS = ["cfg", "subroutine-cfg", "call-graph", "human-summary", "transaction-context"]
 
@@ -388,6 +389,41 @@ def c17(cx):
             'rule': 'in-process: whole pipeline on dead-code / adversarial-layout / dense programs (exception = internal error); CLI: adversarial layouts + generated fragment / call-loop / dead-code programs x {detect text, detect JSON, 5 printers} as subprocesses; distinct = distinct programs'}
 
 
+def repr_num_correspondence(cx):
+    """the model of `_repr_num_list` (lean/TealerModel/NumList.lean, about which C18_annotation_denotes is proved) against the real one on
+    EVERY subset of 0..16 (every value a group-index / group-size context can have), and the real one against an own reader"""
+    import urllib.parse
+    from tealer.printers.transaction_context import PrinterTransactionContext as P
+    drv = engine.driver()
+    subsets = [[i for i in range(17) if m >> i & 1] for m in range(1 << 17)]
+    diffs, bad = 0, 0
+    for k in range(0, len(subsets), 128):
+        chunk = subsets[k:k + 128]
+        drv.p.stdin.write(''.join(f"reprnum {k + j} {','.join(map(str, sub)) if sub else '-'}\n" for j, sub in enumerate(chunk))); drv.p.stdin.flush()
+        for j, sub in enumerate(chunk):
+            parts = drv.p.stdout.readline().rstrip('\n').split(' ')
+            model = urllib.parse.unquote(parts[2]) if len(parts) > 2 else ''
+            real = P._repr_num_list(list(sub))
+            if model != real:
+                diffs += 1
+                if diffs == 1:
+                    cx.broken.append(f"correspondence (_repr_num_list) differs, e.g. on {sub}: tealer prints {real!r}, the model {model!r}")
+            # own reader of the notation
+            got = set()
+            for tok in real.split():
+                mm = re.fullmatch(r'(\d+)\.\.(\d+)', tok)
+                if mm: got.update(range(int(mm.group(1)), int(mm.group(2)) + 1))
+                elif tok.isdigit(): got.add(int(tok))
+                else: got.add(-1)
+            if got != set(sub):
+                bad += 1
+                if bad <= 3:
+                    cx.violations.append({'kind': 'export', 'program': 'repr-num-list', 'prop': 'C18', 'field': 'annotations', 'where': '_repr_num_list',
+                                          'detail': f"the context {sub} is annotated as {real!r}, which denotes {sorted(got)}", 'src': str(sub), 'env': None})
+    cx.evaluations += len(subsets)
+    return {'repr_num_list_subsets': len(subsets), 'repr_num_list_model_differences': diffs, 'repr_num_list_misread': bad}
+
+
 def c18(cx):
     n = 8 if cx.quick() else 100
     items = programs(cx, n)
@@ -405,5 +441,6 @@ def c18(cx):
         cx.distinct.add(r['name'])
     cx.evaluations += checks + 3 * len(res)
     cx.samples += [{'program': res[0]['name'], 'source': res[0]['src'], 'compared': ['JSON envelope/count/short/blocks', 'cfg DOT nodes+edges', 'path DOT marks', 'transaction-context annotations', 'subroutine-cfg nodes', 'call-graph edges', '--filter-paths']}]
-    return {'programs': len(items), 'disagreements_checked': 0, 'cli_runs': checks,
+    rn = repr_num_correspondence(cx)
+    return {**rn, 'programs': len(items), 'disagreements_checked': 0, 'cli_runs': checks,
             'rule': 'same programs as C17; every exported file / JSON document is parsed back and compared with the internal results of an in-process run on the same source'}
